@@ -57,6 +57,11 @@ def dependents(prog, name, keep):
     return out
 
 
+def spread(n, cap=40):
+    """chunk size that keeps every worker busy: a round is as slow as its longest chunk"""
+    return max(1, min(cap, -(-n // (2 * vlib.NCPU))))
+
+
 def evaluate(progs, tag, maxrounds=8):
     """Runs every program: compile (-o0, types) + execute; a binding the compiler rejects or that raises is
     removed together with its dependents and the rest is tried again.
@@ -77,14 +82,14 @@ def evaluate(progs, tag, maxrounds=8):
             items.append({"id": f"{pid}", "src": src, "mode": "compile", "opt": 0, "types": names})
             meta[pid] = (src, at, names)
         stats["compiles"] += len(items)
-        res, _ = vlib.compile_batch(items, f"{tag}_r{rnd}", chunk=40, per_item_ms=120000)
+        res, _ = vlib.compile_batch(items, f"{tag}_r{rnd}", chunk=spread(len(items)), per_item_ms=120000)
         retry = [it for it in items if res.get(it["id"], {}).get("status") in ("hang", "abort", None)]
         if retry:  # a watchdog kill on a loaded machine is not a verdict
             res2, _ = vlib.compile_batch(retry, f"{tag}_r{rnd}x", chunk=1, per_item_ms=600000)
             res.update(res2)
         ok = [pid for pid in active if res.get(pid, {}).get("status") == "ok"]
         stats["runs"] += len(ok)
-        runs = vlib.py_run([{"id": pid, "pyc": res[pid]["pyc"], "names": meta[pid][2]} for pid in ok], f"{tag}_r{rnd}", script_name="pyrun_globals.py") if ok else {}
+        runs = vlib.py_run([{"id": pid, "pyc": res[pid]["pyc"], "names": meta[pid][2]} for pid in ok], f"{tag}_r{rnd}", chunk=max(4, spread(len(ok), 150)), script_name="pyrun_globals.py") if ok else {}
         nxt = {}
         for pid, (p, keep) in active.items():
             r = res.get(pid)
@@ -244,7 +249,7 @@ def fill(tmpl, x, atom):
     return tmpl.format(x=x, e=e, e2=e2, f=f, u=u)
 
 
-QUICK_SKIPS = ("push-neg", "from", "dedup", "mul0", "remove-all")  # left to the thorough tier (quick is sized for < 60 s: one chain program costs ~0.25 s of CPU)
+QUICK_SKIPS = ("push-neg", "from", "dedup", "mul0", "remove-all", "reversed", "slice", "insert")  # left to the thorough tier (quick is sized for < 60 s: one chain program costs ~0.25 s of CPU)
 
 
 def list_chain_programs(depth, atoms=None, skip=()):
@@ -388,6 +393,26 @@ def func_bindings(depth):
     return bs
 
 
+# ------------------------------------------------------------------------------------------------
+# family F: integer `//` and `%` with every sign combination, in the three positions where the checker evaluates
+# (or does not evaluate) the expression at compile time: an element of a list literal (the binding gets the singleton
+# type of the folded list), a constant (upper-case name: singleton type of the folded value), an ordinary binding
+# ------------------------------------------------------------------------------------------------
+FOLD_DIVIDENDS = ["7", "-7", "6", "-6", "1", "0"]
+FOLD_DIVISORS = ["2", "-2", "3", "-3"]
+
+
+def folded_division_bindings():
+    bs = []
+    for (i, a), (j, b), (k, op) in itertools.product(enumerate(FOLD_DIVIDENDS), enumerate(FOLD_DIVISORS), enumerate(("//", "%"))):
+        expr = f"{a} {op} {b}"
+        cls = f"{'zero' if int(a) == 0 else ('pos' if int(a) > 0 else 'neg')},{'pos' if int(b) > 0 else 'neg'},{'exact' if int(a) % int(b) == 0 else 'inexact'}"
+        bs.append(B(f"d_e{i}_{j}_{k}", f"[{expr}, 1]", key=("F", "list-element", op, cls)))
+        bs.append(B(f"D_C{i}_{j}_{k}", expr, key=("F", "constant", op, cls)))
+        bs.append(B(f"d_v{i}_{j}_{k}", expr, key=("F", "binding", op, cls)))
+    return bs
+
+
 CHOICE_ATOMS = ["0", "1", "-1", "1.5", '"a"', "[1]", "True", "None"]
 
 
@@ -449,6 +474,8 @@ def key_str(key, reasons):
         return f"{r}:call:{'.'.join(key[1])}:{key[2]}"
     if fam == "C":
         return f"{r}:choice:{':'.join(key[1:])}"
+    if fam == "F":
+        return f"{r}:int-division:{key[1]}:{key[2]}:{key[3]}"
     return f"{r}:{key}"
 
 
@@ -512,8 +539,8 @@ def run(chk):
     # ---- lists ------------------------------------------------------------------------------------
     lp = list_chain_programs(2, skip=QUICK_SKIPS) if quick else list_chain_programs(3)
     sp = pack(scalar_bindings(1 if quick else 2), [], "scalar")
-    up = pack(func_bindings(2 if quick else 3), [d for _, d in FUNCS], "func")
-    cp = pack(choice_bindings(), [], "choice")
+    up = pack(func_bindings(1 if quick else 3), [d for _, d in FUNCS], "func")
+    cp = pack(choice_bindings(), [], "choice") + pack(folded_division_bindings(), [], "fold")
     # all families go through the engine together (fewer sequential compile rounds)
     louts, st = evaluate(lp + sp + up + cp, "c34A")
     engine["compiles"] += st["compiles"]
@@ -543,7 +570,7 @@ def run(chk):
         src, at, names = p.render()
         rend[p.pid] = at
         items.append({"id": p.pid, "src": src, "mode": "check"})
-    res, _ = vlib.compile_batch(items, "c34P1", chunk=40, per_item_ms=120000) if items else ({}, None)
+    res, _ = vlib.compile_batch(items, "c34P1", chunk=spread(len(items)), per_item_ms=120000) if items else ({}, None)
     engine["compiles"] += len(items)
     p2 = []
     oor = {}  # key -> list of witnesses
